@@ -68,24 +68,43 @@ Theorem C16_section_parents_correct : forall (rows : list srow) (sps : bool),
   check_parents (fst (read_sections rows sps)) (snd (snd (read_sections rows sps))) = true.
 Proof. exact read_sections_parents_ok. Qed.
 
-(* ---- max_branch_len: the equal-points splitting (Model/SwcSplit.v, compared exactly with _split_branch_equally) ----
-   the pieces chain (each starts at the last point of the previous one) and together cover the section ... *)
-Theorem C16_split_pieces_cover_the_section : forall (A : Type) (l : list A) (n : nat), 2 <= n -> 1 <= length l / n ->
+(* ---- max_branch_len: the splitting of a section into pieces (Model/SwcSplit.v, compared exactly with
+   _split_branch_equally).  For EVERY section and every requested number of pieces: the pieces chain (each starts at
+   the last point of the previous one) and together are the section, there are max 1 (min n segments) of them, and
+   every piece keeps at least two traced points; a section that starts at a single-point soma keeps the soma point
+   (whose segment has no length) in front of a first piece of at least three points. *)
+Theorem C16_split_pieces_cover_the_section : forall (A : Type) (l : list A) (n : nat), 1 <= length l ->
   match split_equally l n with
   | first :: rest => first ++ flat_map (@tl A) rest = l
   | [] => False
   end.
 Proof. exact @split_covers. Qed.
 
-(* ... but the first piece has only len / n points: with fewer than 3 n points the first piece of a stem is
-   [soma, first neurite point] (traced length 0 under the gap convention, then set to 1 um), with fewer than 2 n
-   it is a single point (known findings F63 and F25) *)
-Theorem C16_first_piece_has_len_div_n_points : forall (A : Type) (l : list A) (n : nat), 1 <= n ->
-  length (hd [] (split_equally l n)) = length l / n.
-Proof. exact @first_piece_length. Qed.
-Theorem C16_equal_points_split_degenerates :
-  hd [] (split_equally [1; 2; 3; 4; 5; 6] 3) = [1; 2] /\ hd [] (split_equally [1; 2; 3] 2) = [1].
-Proof. split; [exact stem_of_six_points_in_three_pieces | exact three_points_in_two_pieces]. Qed.
+Theorem C16_split_pieces_have_two_points : forall (A : Type) (l : list A) (n : nat) (p : list A),
+  2 <= length l -> In p (split_equally l n) -> 2 <= length p.
+Proof. exact @split_pieces_have_two_points. Qed.
+
+Theorem C16_split_count : forall (A : Type) (l : list A) (n : nat), length (split_equally l n) = Nat.max 1 (Nat.min n (length l - 1)).
+Proof. exact @split_count. Qed.
+
+Theorem C16_split_from_a_single_point_soma : forall (A : Type) (soma : A) (rest : list A) (n : nat), 1 <= length rest ->
+  match split_from_soma (soma :: rest) n with
+  | first :: others => first ++ flat_map (@tl A) others = soma :: rest /\ 3 <= length first \/ length rest < 2
+  | [] => False
+  end.
+Proof. exact @split_from_soma_covers. Qed.
+
+(* the splitting before the repairs of F25 / F63 cut by NUMBER of points with a first piece of len / n points: a single
+   point, or [soma, first neurite point] (machine-checked counterexamples, kept as regression witnesses) *)
+Theorem C16_old_split_degenerates :
+  (forall (A : Type) (l : list A) (n : nat), 1 <= n -> length (hd [] (split_equally_old l n)) = length l / n) /\
+  hd [] (split_equally_old [1; 2; 3; 4; 5; 6] 3) = [1; 2] /\ hd [] (split_equally_old [1; 2; 3] 2) = [1] /\
+  split_equally [1; 2; 3; 4; 5; 6] 3 = [[1; 2]; [2; 3; 4]; [4; 5; 6]] /\ split_equally [1; 2; 3] 2 = [[1; 2]; [2; 3]] /\
+  split_from_soma [1; 2; 3; 4; 5; 6] 3 = [[1; 2; 3]; [3; 4]; [4; 5; 6]].
+Proof.
+  split; [exact @old_first_piece_length|]. split; [exact old_stem_of_six_points_in_three_pieces|]. split; [exact old_three_points_in_two_pieces|].
+  repeat split; reflexivity.
+Qed.
 
 (* non-vacuity of the loop theorem: the model on the example file *)
 Example C16_loop_example :
